@@ -16,6 +16,17 @@ structure Cfg where
   desired : Int   -- (long)(bi->reservoir_bits*bi->reservoir_bias)
   deriving Repr
 
+/-- `rint(num/den)` for `den > 0` in the default rounding mode (nearest, ties to even) -/
+def rintDiv (num den : Int) : Int :=
+  let q := num / den
+  let r := num % den
+  if 2 * r < den then q else if 2 * r > den then q + 1 else if q % 2 = 0 then q else q + 1
+
+/-- `vorbis_bitrate_init`: the per-half-short-block budgets, the long/short ratio and the initial reservoir fill, from the configured
+    rates (bit/s), the sample rate and the block sizes -/
+def Cfg.ofRates (minRate maxRate rate bs0 bs1 RB desired : Int) : Cfg :=
+  { minb := rintDiv (minRate * (bs0 / 2)) rate, maxb := rintDiv (maxRate * (bs0 / 2)) rate, spl := bs1 / bs0, RB := RB, desired := desired }
+
 def PACKETBLOBS : Nat := 15
 
 def minT (c : Cfg) (W : Bool) : Int := if W then c.minb * c.spl else c.minb
